@@ -1,0 +1,73 @@
+// Verification hooks. Compiled only with `--cfg risinglight_verif`; see /verif/DESIGN.md.
+//
+// Named points that a test scheduler, crash recorder or fault injector can observe and gate.
+// With no hook installed every point is a no-op returning `Action::Continue`.
+
+use std::future::Future;
+use std::pin::Pin;
+use std::sync::{Arc, RwLock};
+
+/// What the code at a point is asked to do.
+#[derive(Debug, Clone, Copy, PartialEq, Eq)]
+pub enum Action {
+    Continue,
+    /// Return an error from here (only honoured by points that can fail).
+    Error,
+    /// Panic here.
+    Panic,
+}
+
+pub type SyncHook = Arc<dyn Fn(&str, &str) -> Action + Send + Sync>;
+pub type AsyncHook =
+    Arc<dyn Fn(String, String) -> Pin<Box<dyn Future<Output = Action> + Send>> + Send + Sync>;
+
+static SYNC_HOOK: RwLock<Option<SyncHook>> = RwLock::new(None);
+static ASYNC_HOOK: RwLock<Option<AsyncHook>> = RwLock::new(None);
+
+pub fn install_sync(hook: SyncHook) {
+    *SYNC_HOOK.write().unwrap() = Some(hook);
+}
+
+pub fn install_async(hook: AsyncHook) {
+    *ASYNC_HOOK.write().unwrap() = Some(hook);
+}
+
+pub fn clear() {
+    *SYNC_HOOK.write().unwrap() = None;
+    *ASYNC_HOOK.write().unwrap() = None;
+}
+
+/// A synchronous point (may be called while holding a sync lock).
+pub fn point_sync(name: &str, detail: &str) -> Action {
+    let hook = SYNC_HOOK.read().unwrap().clone();
+    match hook {
+        Some(h) => {
+            let a = h(name, detail);
+            if a == Action::Panic {
+                panic!("verif: injected panic at {name} {detail}");
+            }
+            a
+        }
+        None => Action::Continue,
+    }
+}
+
+/// An asynchronous point: the sync hook observes it first, then the async hook may suspend
+/// the caller (yield point of a deterministic scheduler).
+pub async fn point(name: &str, detail: &str) -> Action {
+    let a = point_sync(name, detail);
+    if a != Action::Continue {
+        return a;
+    }
+    let hook = ASYNC_HOOK.read().unwrap().clone();
+    match hook {
+        Some(h) => {
+            let a = h(name.to_string(), detail.to_string()).await;
+            if a == Action::Panic {
+                panic!("verif: injected panic at {name} {detail}");
+            }
+            a
+        }
+        None => Action::Continue,
+    }
+}
